@@ -21,7 +21,7 @@ import (
 
 type s2Msg struct {
 	Kind     string // RV PV AE
-	From     int    // 1, 2 (members) or 3 (outsider)
+	From     int    // 1, 2 (voters), 3 (non-voter member) or 4 (outsider)
 	Term     uint64
 	LastIdx  uint64
 	LastTerm uint64
@@ -63,8 +63,11 @@ func genS2(ch *simrt.Chooser, thorough bool) []s2Msg {
 			t -= uint64(1 + ch.Choose(simrt.SWork, int(t-1))) // a stale term
 		}
 		from := 1 + ch.Choose(simrt.SWork, 2)
-		if ch.Choose(simrt.SWork, 12) == 0 {
-			from = 3
+		switch ch.Choose(simrt.SWork, 12) {
+		case 0:
+			from = 3 // a member of the configuration without a vote
+		case 1:
+			from = 4 // a server the configuration does not know
 		}
 		switch k := ch.Choose(simrt.SWork, 10); {
 		case k < 5:
@@ -90,7 +93,7 @@ func genS2(ch *simrt.Chooser, thorough bool) []s2Msg {
 			}
 			seq = append(seq, m)
 		default:
-			if from == 3 {
+			if from >= 3 {
 				from = 1
 			}
 			m := s2Msg{Kind: "AE", From: from, Term: t, Prev: lastIdx, PrevTerm: lastTerm}
@@ -180,6 +183,7 @@ func runC06(t *testing.T, spec RunSpec) (res RunResult) {
 			for i := 0; i < 3; i++ {
 				conf.Servers = append(conf.Servers, raft.Server{Suffrage: raft.Voter, ID: w.nodes[i].id, Address: w.nodes[i].addr})
 			}
+			conf.Servers = append(conf.Servers, raft.Server{Suffrage: raft.Nonvoter, ID: "s3", Address: "a3"})
 			w.or.initCfg = conf
 			c := conf.Clone()
 			w.boot(w.nodes[0], &c)
